@@ -74,7 +74,18 @@ func (e *fnEnc) runTop() {
 		ptrParams = append(ptrParams, n)
 	}
 	_ = ptrParams
+	// implicit precondition: a pointer receiver is non-nil (checked as nil:recv at static call sites)
+	if e.fn.Signature.Recv() != nil && len(e.fn.Params) > 0 {
+		if _, ok := e.fn.Params[0].Type().Underlying().(*types.Pointer); ok {
+			vc.assume(fmt.Sprintf("(not (= %s 0))", e.val[e.fn.Params[0]]))
+		}
+	}
 	e.entryHeap = copyMap(e.cur)
+	for _, p := range e.fn.Params {
+		for _, f := range e.typeInvFormulas(e.val[p], p.Type(), e.entryHeap) {
+			vc.assume(f.f)
+		}
+	}
 	// preconditions
 	if c := e.contract; c != nil {
 		env := e.entryEnv()
@@ -85,7 +96,7 @@ func (e *fnEnc) runTop() {
 			}
 			vc.assume(tv)
 		}
-		vc.oblige(&Obligation{Name: FuncKey(e.fn) + "#cover:requires", Kind: "cover", Guard: "true", Cond: "true", Cover: true, Props: c.Props, Src: "requires satisfiable"})
+		vc.oblige(&Obligation{Name: FuncKey(e.fn) + "#cover:requires", Kind: "cover", Guard: "true", Cond: "true", Cover: true, Props: c.AllProps(), Src: "requires satisfiable"})
 	}
 	for _, b := range e.order {
 		e.block(b, "true")
@@ -95,7 +106,7 @@ func (e *fnEnc) runTop() {
 		for _, r := range e.rets {
 			gs = append(gs, r.guard)
 		}
-		vc.oblige(&Obligation{Name: FuncKey(e.fn) + "#cover:return", Kind: "cover", Guard: sOr(gs...), Cond: "true", Cover: true, Props: e.contract.Props, Src: "some return reachable"})
+		vc.oblige(&Obligation{Name: FuncKey(e.fn) + "#cover:return", Kind: "cover", Guard: sOr(gs...), Cond: "true", Cover: true, Props: e.contract.AllProps(), Src: "some return reachable"})
 	}
 }
 
@@ -336,6 +347,17 @@ func (e *fnEnc) varAt(name string, at, from *ssa.BasicBlock, heap map[string]str
 
 // varAtIdx resolves a source variable just before instruction index upto of block at (upto < 0: at block entry, after the phis).
 func (e *fnEnc) varAtIdx(name string, at *ssa.BasicBlock, upto int, from *ssa.BasicBlock, heap map[string]string) (TV, bool) {
+	// address-taken locals live in memory: always read the cell (value snapshots in DebugRefs are stale)
+	for _, b := range e.fn.Blocks {
+		for _, in := range b.Instrs {
+			if al, ok := in.(*ssa.Alloc); ok && al.Comment == name && (b == at || b.Dominates(at)) {
+				if _, seen := e.val[al]; seen {
+					T := al.Type().Underlying().(*types.Pointer).Elem()
+					return e.loadVia(al, T, heap), true
+				}
+			}
+		}
+	}
 	for blk := at; blk != nil; blk = blk.Idom() {
 		instrs := blk.Instrs
 		end := len(instrs)
@@ -432,7 +454,7 @@ func (e *fnEnc) assumeInvariants(li *loopInfo) {
 		e.decAtHead[li.head] = append(e.decAtHead[li.head], n)
 	}
 	if e.top && e.contract != nil {
-		e.vc.oblige(&Obligation{Name: fmt.Sprintf("%s#cover:loop%d", FuncKey(e.fn), li.ordinal), Kind: "cover", Guard: e.reach[li.head], Cond: "true", Cover: true, Props: e.contract.Props, Src: "loop head reachable under its invariant"})
+		e.vc.oblige(&Obligation{Name: fmt.Sprintf("%s#cover:loop%d", FuncKey(e.fn), li.ordinal), Kind: "cover", Guard: e.reach[li.head], Cond: "true", Cover: true, Props: e.contract.AllProps(), Src: "loop head reachable under its invariant"})
 	}
 }
 
@@ -452,7 +474,7 @@ func (e *fnEnc) loopObligations(li *loopInfo, from *ssa.BasicBlock, guard, kind 
 		}
 		props := cl.Props
 		if len(props) == 0 && e.contract != nil {
-			props = e.contract.Props
+			props = e.contract.AllProps()
 		}
 		if cl.Cand {
 			props = nil
@@ -476,7 +498,7 @@ func (e *fnEnc) loopObligations(li *loopInfo, from *ssa.BasicBlock, guard, kind 
 			h := e.decAtHead[li.head][i]
 			props := cl.Props
 			if len(props) == 0 && e.contract != nil {
-				props = e.contract.Props
+				props = e.contract.AllProps()
 			}
 			name := fmt.Sprintf("%s#variant:loop%d.from%d", FuncKey(e.fn), li.ordinal, e.edgeOrdinal(li, from))
 			e.vc.oblige(&Obligation{Name: name, Kind: "variant", Guard: guard, Cond: fmt.Sprintf("(and (>= %s 0) (< %s %s))", h, tv.T, h), Props: props, Src: "decreases " + cl.Src, Pos: e.loopPos(li.head)})
@@ -523,4 +545,56 @@ func candOf(cl *Clause) *Clause {
 		return cl
 	}
 	return nil
+}
+
+type invFormula struct {
+	f  string
+	cl *Clause
+	tn string
+}
+
+// typeInvFormulas instantiates the declared type invariants of *T for the object t (self := t) in the given heap.
+func (e *fnEnc) typeInvFormulas(t string, T types.Type, heap map[string]string) []invFormula {
+	pt, ok := T.Underlying().(*types.Pointer)
+	if !ok {
+		return nil
+	}
+	named, ok := pt.Elem().(*types.Named)
+	if !ok || named.Obj().Pkg() == nil {
+		return nil
+	}
+	key := named.Obj().Pkg().Path() + "." + named.Obj().Name()
+	cls := e.vc.P.Contracts.TypeInvs[key]
+	if len(cls) == 0 {
+		return nil
+	}
+	var out []invFormula
+	for _, cl := range cls {
+		env := &specEnv{e: e, pkg: named.Obj().Pkg().Path(), bound: map[string]TV{"self": {t, "Int", T}}, heapAt: heap, oldHeap: e.entryHeap}
+		f, err := env.Bool(cl.Expr)
+		if err != nil {
+			e.fail("typeinv %s: %v", key, err)
+		}
+		out = append(out, invFormula{sImp(fmt.Sprintf("(not (= %s 0))", t), f), cl, named.Obj().Name()})
+	}
+	return out
+}
+
+// writesType reports whether fn may write a field of the struct type behind pointer type T.
+func (e *fnEnc) writesType(T types.Type) bool {
+	pt, ok := T.Underlying().(*types.Pointer)
+	if !ok {
+		return false
+	}
+	s := e.vc.P.Summ[e.fn]
+	if s == nil || s.All {
+		return true
+	}
+	prefix := "F!" + e.S().typeID(pt.Elem()) + "!"
+	for k := range s.Writes {
+		if strings.HasPrefix(k, prefix) {
+			return true
+		}
+	}
+	return false
 }
